@@ -2,7 +2,7 @@
 """Regenerates DESIGN.md section 10.5 from /verif/seeded/*/meta.json (+ detection.json)."""
 import json, glob, os
 os.chdir(os.path.dirname(os.path.dirname(os.path.abspath(__file__))))
-rows = []; missed = thin = other_only = 0
+rows = []; missed = thin = other_only = undetected = 0
 for d in sorted(glob.glob('seeded/*')):
     n = os.path.basename(d); m = json.load(open(d + '/meta.json'))
     ran = m.setdefault('ran', {'confirmed': 'tools/seedeval.sh: unedited suite passes with the change; the demonstration fails with it and passes without it',
@@ -10,11 +10,10 @@ for d in sorted(glob.glob('seeded/*')):
     json.dump(m, open(d + '/meta.json', 'w'), indent=1)
     det = json.load(open(d + '/detection.json')) if os.path.exists(d + '/detection.json') else {}
     caught = ', '.join(k for k, v in det.get('results', {}).items() if v['exit'] == 1) or '(see history)'
-    own = m.get('property', '')[:3]
-    if det.get('results') and det['results'].get(own, {}).get('exit') != 1:
-        other_only += 1
     note = ran.get('note', '')
-    missed += note.startswith('missed'); thin += note.startswith('caught thinly') or note.startswith('caught at seed')
+    if det.get('results') and det['results'].get(m.get('property','')[:3], {}).get('exit') != 1 and not note.startswith('NOT DETECTED'):
+        other_only += 1
+    undetected += note.startswith('NOT DETECTED'); missed += note.startswith('missed'); thin += note.startswith('caught thinly') or note.startswith('caught at seed')
     need = m.get('needs_to_manifest', '')[:150].replace('|', '/').replace('\n', ' ')
     rows.append(f"| {n} | {m.get('property','')[:3]} | {need} | {caught} | {note} |")
 txt = f'''
@@ -27,7 +26,7 @@ change it would plausibly miss - the description grew with every batch. `tools/s
 in a scratch worktree and runs the quick check of the targeted property and of the properties listed under
 `also_check` (`detection.json`). {len(rows)} changes so far; {missed} were missed and {thin} were caught only thinly or
 seed-dependently by the checks as they stood when the change arrived; after the strengthening recorded in the history
-column every change is detected by a quick check: {len(rows) - other_only} by the quick check of the property it was written
+column {len(rows) - undetected} of the {len(rows)} changes are detected by a quick check ({undetected} is not, see 10.6): {len(rows) - other_only - undetected} by the quick check of the property they were written
 against, {other_only} only by another property's check (changes that are wrong only under concurrency were written
 against sequential properties C04 / C09 / C10 / C12 and are C19's subject).
 
@@ -46,7 +45,11 @@ processes whose first calls are concurrent; packed keys need every power-of-two 
 encodings; new syntax needs the sources' punctuation literals placed around versions.
 '''
 s = open('DESIGN.md').read()
+tail = ''
+if '\n### 10.6 ' in s:
+    tail = s[s.index('\n### 10.6 '):]
+    s = s[:s.index('\n### 10.6 ')]
 if '\n### 10.5 Seeded changes' in s:
     s = s[:s.index('\n### 10.5 Seeded changes')]
-open('DESIGN.md', 'w').write(s + txt)
+open('DESIGN.md', 'w').write(s + txt.rstrip('\n') + '\n' + tail)
 print(len(rows), 'rows;', missed, 'missed first;', thin, 'thin')
